@@ -903,13 +903,19 @@ def log_combos():
                 yield (lvl, st, lf)
 
 
+LOG_SELS = ["default", "strict-bad", "config+disable+set"]     # diagnostics must be inert under every selection, incl. one strict mode rejects
+
+
 def _log_worker(task):
-    doc, combo, mode = task
+    doc, combo, mode, sel_name = task
     lvl, st, lf = combo
+    sel = next(x for x in SELECTIONS if x["name"] == sel_name)
     fresh_logging()
     with implib.workspace() as ws:
+        for fn, content in sel.get("files", {}).items():
+            implib.write(os.path.join(ws, fn), content)
         logp = os.path.join(ws, "run.log")
-        opts = (["--stack-trace"] if st else []) + (["--log-level", lvl] if lvl else []) + (["--log-file", logp] if lf else [])
+        opts = (["--stack-trace"] if st else []) + (["--log-level", lvl] if lvl else []) + (["--log-file", logp] if lf else []) + cli_prefix(sel, ws)
         api_extra = ([("stack",)] if st else []) + ([("log", lvl)] if lvl else []) + ([("log_file", logp)] if lf else [])
         raw = doc.encode("utf-8")
         p = implib.write(os.path.join(ws, "doc.md"), raw)
@@ -926,41 +932,48 @@ def _log_worker(task):
             code, out, err = run_cli(opts + ["fix", p])
             obs = {"code": code, "fixed_msgs": [l.replace(p, "<F>") for l in out.split("\n") if l.startswith("Fixed: ")], "text": implib.read_bytes(p).decode("utf-8")}
         elif mode == "api_scan":
-            r, e, _, _ = quiet_api(lambda: make_api(SELECTIONS[0], ws, api_extra).scan_string(doc))
+            r, e, _, _ = quiet_api(lambda: make_api(sel, ws, api_extra).scan_string(doc))
             obs = api_scan_result(r, e, "in-memory")
+            if isinstance(obs.get("error"), str):      # the stack trace appended to the reason is the diagnostic itself
+                obs["error"] = obs["error"].split("\nTraceback (most recent call last)")[0].strip()
         elif mode == "api_fix":
-            r, e, _, _ = quiet_api(lambda: make_api(SELECTIONS[0], ws, api_extra).fix_string(doc))
+            r, e, _, _ = quiet_api(lambda: make_api(sel, ws, api_extra).fix_string(doc))
             obs = {"text": r.fixed_file if r else None, "fixed": r.was_fixed if r else None, "error": bool(e)}
         after = implib.tree_snapshot(ws)
         changed = sorted(k for k in set(before) | set(after) if before.get(k) != after.get(k))
         allowed = {"run.log"} | ({"doc.md"} if mode == "fix" else set())
         obs["other_files_changed"] = [k for k in changed if k not in allowed]
         log_written = os.path.exists(logp) and os.path.getsize(logp) > 0
-    return doc, combo, mode, obs, log_written
+    return doc, combo, mode, obs, log_written, sel_name
 
 
 def log_stage(ctx):
     docs = ["# T\n\nText.\n", "Intro \n\n\n#T\n\ttab\n* a\n+ b\n", "# T\r\n\r\né text \r\n", "<!-- pyml bogus md041-->\ntext", "# T\n\n1. a\n1. b\n3. c\n"]
     modes = ["scan", "stdin", "fix", "api_scan", "api_fix"]
     combos = list(log_combos())
-    tasks = [(d, c, m) for d in docs for m in modes for c in combos]
+    tasks = [(d, c, m, "default") for d in docs for m in modes for c in combos]
+    tasks += [(d, c, m, sn) for d in docs[:2] for m in modes for c in combos for sn in LOG_SELS[1:]]
     total = len(tasks)
     if ctx.quick():
         base = [t for t in tasks if t[1] == (None, False, False)]
         rest = [t for t in tasks if t[1] != (None, False, False)]
-        tasks = base + ctx.rng.sample(rest, 250)
+        # every (mode, selection) with the stack trace alone is always included: the one diagnostic switch that is assembled
+        # next to the non-diagnostic ones in the API
+        fixed = [t for t in rest if t[1] == (None, True, False) and t[0] == docs[1]]
+        tasks = base + fixed + ctx.rng.sample([t for t in rest if t not in fixed], 250)
     with multiprocessing.Pool(16) as pool:
         res = pool.map(_log_worker, tasks, chunksize=4)
-    baseline = {(d, m): obs for d, c, m, obs, _ in res if c == (None, False, False)}
+    baseline = {(d, m, sn): obs for d, c, m, obs, _, sn in res if c == (None, False, False)}
     fails, logs_written, dist = [], 0, {}
-    for d, c, m, obs, lw in res:
+    for d, c, m, obs, lw, sn in res:
         logs_written += lw
         dist[m] = dist.get(m, 0) + 1
-        b = baseline[(d, m)]
+        dist["selection " + sn] = dist.get("selection " + sn, 0) + 1
+        b = baseline[(d, m, sn)]
         if obs != b:
-            fails.append(({"document": d, "mode": m, "log_level": c[0], "stack_trace": c[1], "log_file": c[2]}, f"with diagnostics: {obs}; without: {b}"))
-        if c[2] and c[0] in ("DEBUG", "INFO") and not lw:
-            fails.append(({"document": d, "mode": m, "log_level": c[0], "stack_trace": c[1], "log_file": c[2]}, "log file requested at a verbose level but nothing was written (option not effective: vacuous comparison)"))
+            fails.append(({"document": d, "mode": m, "log_level": c[0], "stack_trace": c[1], "log_file": c[2], "selection": sn}, f"with diagnostics: {obs}; without: {b}"))
+        if c[2] and c[0] in ("DEBUG", "INFO") and not lw and sn != "strict-bad":
+            fails.append(({"document": d, "mode": m, "log_level": c[0], "stack_trace": c[1], "log_file": c[2], "selection": sn}, "log file requested at a verbose level but nothing was written (option not effective: vacuous comparison)"))
     for case, what in fails[:10]:
         pend(ctx, case, "diagnostics-not-inert", {"oracle": what})
     # a few real processes: stdout must be exactly the failures when logging goes to a file
@@ -1124,8 +1137,8 @@ def replay(ctx, path):
             sel = next((s for s in SELECTIONS if s["name"] == (case.get("selection") or rp.get("selection"))), SELECTIONS[0])
             if sym == "diagnostics-not-inert":
                 combo = (case.get("log_level"), case.get("stack_trace"), case.get("log_file"))
-                _, _, _, obs, _ = _log_worker((doc, combo, case["mode"]))
-                _, _, _, base, _ = _log_worker((doc, (None, False, False), case["mode"]))
+                _, _, _, obs, _, _ = _log_worker((doc, combo, case["mode"], case.get("selection", "default")))
+                _, _, _, base, _, _ = _log_worker((doc, (None, False, False), case["mode"], case.get("selection", "default")))
                 print("with:", obs, "\nwithout:", base)
                 bad = obs != base
             else:
